@@ -788,7 +788,7 @@ func (r *runner) annotateBlock(kinds []string, reqs []*blockReq, note string) {
 		}
 		who := strings.TrimSuffix(strings.Fields(v.Detail + " x")[0], "'s")
 		mark := ""
-		if joiners[who] && strings.HasPrefix(v.Rule, "view-") && r.relayBeforeState(who) {
+		if joiners[who] && strings.HasPrefix(v.Rule, "view-") && r.relayBeforeState(who) && r.overtaken(who, v.Keys) {
 			// the known stale-snapshot window: the change the view misses *was* relayed to the
 			// joiner, but ahead of the SESSION_STATE that then overwrote it
 			mark = " [observer joined during the block and was relayed a change ahead of its SESSION_STATE]"
@@ -910,6 +910,59 @@ func (r *runner) listOvertaken(reqs []*blockReq, label string, keys []string) bo
 		if !seen[k] {
 			return false
 		}
+	}
+	return true
+}
+
+// overtaken: every state entry the violation is about (participant, entity, component key) was
+// the subject of a relay that the client received ahead of its SESSION_STATE. Violations that
+// name no entries (none do among the view rules) are not covered.
+func (r *runner) overtaken(label string, keys []string) bool {
+	if len(keys) == 0 {
+		return false
+	}
+	seen := map[string]bool{}
+	for _, c := range r.clients {
+		if c.Label != label {
+			continue
+		}
+		for _, m := range c.Since() {
+			if m.Type == 2 {
+				break
+			}
+			switch x := m.Msg.(type) {
+			case *hagallpb.ParticipantJoinBroadcast:
+				seen[fmt.Sprintf("pid:%d", x.ParticipantId)] = true
+			case *hagallpb.ParticipantLeaveBroadcast:
+				seen[fmt.Sprintf("pid:%d", x.ParticipantId)] = true
+			case *hagallpb.EntityAddBroadcast:
+				seen[fmt.Sprintf("ent:%d", x.GetEntity().GetId())] = true
+			case *hagallpb.EntityDeleteBroadcast:
+				seen[fmt.Sprintf("ent:%d", x.EntityId)] = true
+				seen[fmt.Sprintf("entc:%d", x.EntityId)] = true
+			case *hagallpb.EntityUpdatePoseBroadcast:
+				seen[fmt.Sprintf("ent:%d", x.EntityId)] = true
+			case *hagallpb.EntityComponentAddBroadcast:
+				seen[fmt.Sprintf("comp:%v", CKey{x.GetEntityComponent().GetEntityComponentTypeId(), x.GetEntityComponent().GetEntityId()})] = true
+			case *hagallpb.EntityComponentUpdateBroadcast:
+				seen[fmt.Sprintf("comp:%v", CKey{x.GetEntityComponent().GetEntityComponentTypeId(), x.GetEntityComponent().GetEntityId()})] = true
+			case *hagallpb.EntityComponentDeleteBroadcast:
+				seen[fmt.Sprintf("comp:%v", CKey{x.GetEntityComponent().GetEntityComponentTypeId(), x.GetEntityComponent().GetEntityId()})] = true
+			}
+		}
+	}
+	for _, k := range keys {
+		if seen[k] {
+			continue
+		}
+		// a component of an entity whose deletion overtook the snapshot
+		if strings.HasPrefix(k, "comp:{") {
+			var t, e uint32
+			if _, err := fmt.Sscanf(k, "comp:{%d %d}", &t, &e); err == nil && seen[fmt.Sprintf("entc:%d", e)] {
+				continue
+			}
+		}
+		return false
 	}
 	return true
 }
